@@ -825,7 +825,12 @@ class Simplifier:
         This is done because comparison simplification is only done on lt/lte/gt/gte.
         """
         if isinstance(expression, exp.Between):
-            negate = isinstance(expression.parent, exp.Not)
+            parent = expression.parent
+            # The AND that replaces the BETWEEN binds looser than NOT and than any
+            # other operator or predicate it is an operand of, so it has to stay grouped
+            wrap = isinstance(parent, (exp.Binary, exp.Unary, exp.Predicate)) and not isinstance(
+                parent, (exp.Connector, exp.Paren)
+            )
 
             expression = exp.and_(
                 exp.GTE(this=expression.this.copy(), expression=expression.args["low"]),
@@ -833,7 +838,7 @@ class Simplifier:
                 copy=False,
             )
 
-            if negate:
+            if wrap:
                 expression = exp.paren(expression, copy=False)
 
         return expression
